@@ -142,6 +142,8 @@ class Engine:
         self.keep_traces = keep_traces
         self.loop_bound = loop_bound
         self.typeids = {}
+        self.budget_s = 1e9
+        self.slowlog = None
         from . import externs as ex
         ex.install(self)
 
@@ -171,12 +173,17 @@ class Engine:
         for c in cons:
             if z3.is_false(c):
                 return "unsat", None
+        if self.res.solver_s > self.budget_s:
+            raise Budget("solver budget of %.0f s for this obligation exhausted" % self.budget_s)
         s = z3.Solver()
         s.set("timeout", self.timeout_ms)
         s.add(*cons)
         t = time.time()
         r = s.check()
-        self.res.solver_s += time.time() - t
+        dt = time.time() - t
+        self.res.solver_s += dt
+        if dt > 2 and self.slowlog:
+            self.slowlog("slow query %.1fs -> %s (%d constraints)" % (dt, r, len(cons)))
         self.res.queries += 1
         rs = str(r)
         self.cache[key] = rs
@@ -1320,6 +1327,10 @@ class Engine:
             first = False
         st.notes.append("uncaught exception " + str(ti))
         raise PathEnd("uncaught-exception:" + str(ti))
+
+
+class Budget(Exception):
+    pass
 
 
 class SymOffset(Exception):
